@@ -398,6 +398,62 @@ def run(db, cx):
     else:
         cx.require(False, "anchor calc_mean_energy_loss not found")
 
+    # ------------------------------- rule 5: a track is ended only with its energy accounted
+    kill_accounts_energy(db, cx, "C01.5-kill-accounts")
+
+
+def kill_accounts_energy(db, cx, rule):
+    """Every status(killed) site of the stepping loop sits where the track's remaining kinetic
+    energy is accounted for: zero (is_stopped edge of ElossApplier), handed to the interaction's
+    deposition (absorbed edge of InteractionApplier), drained and deposited (TrackingCutExecutor,
+    checked by C01.2-trackingcut) or carried out of the world (is_outside edge of
+    BoundaryExecutor).  A kill on any other edge drops whatever energy the particle still has."""
+    STATUS = C + "SimTrackView::status"
+
+    def stopped(c):
+        calls = c.get("allcalls", c.get("calls", []))
+        if PTV + "::is_stopped" in calls:
+            return True
+        return c.get("op") == "==" and PTV + "::energy" in calls and \
+            ("zero_quantity" in c.get("t", "") or c.get("rlit") in ("0", "0.0"))
+
+    def absorbed(c):
+        return "F:" + C + "Interaction::action" in c.get("allrefs", c.get("refs", [])) \
+            and "absorbed" in c.get("t", "") and c.get("op") in ("==", "!=")
+
+    def outside(c):
+        return any(x.endswith("TrackView::is_outside") for x in c.get("allcalls", c.get("calls", [])))
+    table = {
+        ELOSS: ("the particle is stopped (zero energy)", stopped, lambda c: True),
+        IAPP: ("the interaction absorbed the particle", absorbed, lambda c: c.get("op") == "=="),
+        C + "detail::BoundaryExecutor::operator()": ("the track left the world", outside, lambda c: True),
+    }
+    n = 0
+    for f, ev in db.callers_of(STATUS):
+        if len(ev.get("args", [])) != 1 or not ev["args"][0].get("enum", "").endswith("::killed"):
+            continue
+        if "optical" in f.name or f.name == TCUT:
+            continue
+        if f.name not in table:
+            continue    # a new kill site is reported by the status typestate rule (C02/C16)
+        what, pred, want = table[f.name]
+        pos = next(((b, i) for (b, i, e2) in f.events("call") if e2 is ev), None)
+        ok, det = False, "no guarding branch"
+        for br in f.branch_blocks(lambda c, _b: pred(c)):
+            if None in f.blocks[br]["succ"]:
+                continue
+            c = f.blocks[br]["cond"]
+            e = f.cond_polarity_edge(br, want(c))
+            if f.guarded_by_edge(pos, br, e):
+                ok, det = True, "on the %s edge of `%s`" % (want(c), c.get("t", ""))
+        n += 1
+        cx.ob(rule, "%s: status(killed)@%s only where %s [%s]"
+              % (f.name.split("::")[-2], short(ev["loc"]), what, f.inst.split("<")[-1][:30]), ok, det,
+              short(ev["loc"]),
+              why="ending the track on any other edge discards the kinetic energy it still carries: "
+                  "it is neither deposited nor carried out of the world")
+    cx.floor("guarded kill sites", n, 3)
+
 
 def is_anti(c):
     calls = c.get("calls", [])
